@@ -309,6 +309,11 @@ func genC16(g *Gen) {
 				emit("many siblings under one node", steps)
 			}
 		}
+		for _, sym := range []string{"<", "<=", "<=>", "ab", "é="} {
+			probe := []rune(sym + " " + sym + "x<=>=" + sym)
+			emit("the same symbol registered again", []any{reg{[]rune("<"), 10}, reg{[]rune(sym), 700}, probe, reg{[]rune(sym), 701}, probe, reg{[]rune(sym + "!"), 702}, reg{[]rune(sym), 703}, probe,
+				append(append([]rune{}, probe...), []rune(sym+"!"+sym)...)})
+		}
 		wide := []rune{0x416, 0x2192, 0x10c, 0x13d, 0x3d, 0xff1d, 0x1f600, 0x43d}
 		var ws []any
 		for i, c := range wide {
